@@ -9,11 +9,12 @@ if [ "$REPO" != "/repo" ]; then
     sed -i "s#/repo/#$REPO/#g" shuttle_engine/shadow/rodbus/Cargo.toml shuttle_engine/shadow/rodbus-ffi/Cargo.toml
 fi
 ALL="${SWEEP_PROPS:-C01 C02 C03 C04 C05 C06 C07 C08 C09 C10 C11 C12 C13 C14 C15 C16 C17 C18 C19 C20}"
+# BENIGN_GLOB=<glob> restricts the sweep to benign/<glob>/ (default: all)
 # optional sharding: benign_sweep.sh <k> <n>; VERIF_SWEEP_LEAN=1 leaves out the Miri engine (C18/C19), whose
 # rebuild per change dominates the time
 K="${1:-0}"; N="${2:-1}"; I=0
 : > benign_results.txt
-for D in benign/*/; do
+for D in benign/${BENIGN_GLOB:-*}/; do
     I=$((I+1)); [ $((I % N)) -eq "$K" ] || continue
     ID=$(basename "$D")
     [ -f "$D/patch.diff" ] || continue
